@@ -573,3 +573,66 @@ func rowsErrChecked(r *core.Run, rule string, fns []*core.FuncInfo) int {
 	}
 	return n
 }
+
+// deferredWhenErr analyses what a deferred call does when the function's named error result is non-nil at exit:
+// a deferred closure (which tests the captured result), or a deferred call of a function of the package that is
+// handed the address of the result (`defer m.rollbackOnError(tx, &err)`, which tests `*p`). nil: not such a defer.
+func deferredWhenErr(sp *flow.Spec, fn *core.FuncInfo, ds *ast.DeferStmt, errRes types.Object) *flow.Result {
+	if errRes == nil {
+		return nil
+	}
+	info := fn.Pkg.TypesInfo
+	if lit, ok := ast.Unparen(ds.Call.Fun).(*ast.FuncLit); ok {
+		return sp.AnalyzeLitSeed(fn.Pkg, lit, func(s *flow.State) { s.SetNil(errRes, false) })
+	}
+	h := sp.W.Info(core.Callee(info, ds.Call))
+	if h == nil || h.Pkg != fn.Pkg || h.Decl.Body == nil {
+		return nil
+	}
+	ps := paramObjs(h)
+	var ptr types.Object
+	for i, a := range ds.Call.Args {
+		if u, ok := ast.Unparen(a).(*ast.UnaryExpr); ok && u.Op == token.AND && i < len(ps) && core.ObjOf(info, u.X) == errRes {
+			ptr = ps[i]
+		}
+	}
+	if ptr == nil {
+		return nil
+	}
+	saved := sp.AssumeCond
+	defer func() { sp.AssumeCond = saved }()
+	sp.AssumeCond = func(pkg *packages.Package, cond ast.Expr) (bool, bool) {
+		be, ok := ast.Unparen(cond).(*ast.BinaryExpr)
+		if !ok || (be.Op != token.EQL && be.Op != token.NEQ) {
+			return false, false
+		}
+		x, y := ast.Unparen(be.X), ast.Unparen(be.Y)
+		if isNilIdent(pkg.TypesInfo, x) {
+			x, y = y, x
+		}
+		if !isNilIdent(pkg.TypesInfo, y) {
+			return false, false
+		}
+		st, ok := x.(*ast.StarExpr)
+		if !ok || core.ObjOf(pkg.TypesInfo, st.X) != ptr {
+			return false, false
+		}
+		return true, be.Op == token.NEQ
+	}
+	// the pointer parameter is not reassigned in the helper
+	reassigned := false
+	ast.Inspect(h.Decl.Body, func(n ast.Node) bool {
+		if as, ok := n.(*ast.AssignStmt); ok {
+			for _, l := range as.Lhs {
+				if core.ObjOf(h.Pkg.TypesInfo, l) == ptr {
+					reassigned = true
+				}
+			}
+		}
+		return true
+	})
+	if reassigned {
+		return nil
+	}
+	return sp.AnalyzeSeed(h, nil)
+}
